@@ -163,13 +163,16 @@ Definition auth_fits (h : host) (a : auth) : Prop :=
   | ABearer t => tok_fits h SchBearer t
   end.
 
+Section WithParse.
+Variable parse : str -> scheme * params.
+
 (* registry h advertised this realm in a Bearer challenge answering a send of this request *)
 Definition advertised (h : host) (realm : str) (pre : list event) : Prop :=
   exists a fr hdr ps, In (SReg h a fr, A401 hdr) pre /\
-                      parse_challenge hdr = Ch SchBearer ps /\ get_param s_realm ps = realm.
+                      parse hdr = (SchBearer, ps) /\ get_param s_realm ps = realm.
 
 Definition basic_challenged (h : host) (pre : list event) : Prop :=
-  exists a fr hdr ps, In (SReg h a fr, A401 hdr) pre /\ parse_challenge hdr = Ch SchBasic ps.
+  exists a fr hdr ps, In (SReg h a fr, A401 hdr) pre /\ parse hdr = (SchBasic, ps).
 
 Definition send_ok (h : host) (pre : list event) (s : send) : Prop :=
   match s with
@@ -249,7 +252,7 @@ Ltac crush :=
 
 Lemma do_request_ok clean cf c rq script :
   cache_ok c ->
-  let '(evs, c', r) := do_request clean cf c rq script in
+  let '(evs, c', r) := do_request clean parse cf c rq script in
   cache_ok c' /\ trace_ok_from (rq_host rq) [] evs.
 Proof.
   intro H. unfold do_request.
@@ -259,7 +262,7 @@ Proof.
             | Some SchBasic => _ | Some SchBearer => _ | _ => _ end) as [attempted a1].
   simpl in H1.
   destruct script as [|[| hdr | id | | ] script1]; try (leaf; fail).
-  destruct (parse_challenge hdr) as [|[| |] ps] eqn:Ech; try (leaf; fail).
+  destruct (parse hdr) as [[| |] ps] eqn:Ech; try (leaf; fail).
   - (* Basic *)
     unfold fetch_basic, final_send. crush.
   - (* Bearer *)
@@ -276,15 +279,15 @@ Qed.
 (* ---------- histories ---------- *)
 Lemma run_history_ok clean cf : forall hist c,
   cache_ok c ->
-  cache_ok (snd (run_history clean cf c hist)) /\
+  cache_ok (snd (run_history clean parse cf c hist)) /\
   Forall2 (fun rs out => trace_ok (rq_host (fst rs)) (fst out))
-          hist (fst (run_history clean cf c hist)).
+          hist (fst (run_history clean parse cf c hist)).
 Proof.
   induction hist as [|[rq script] hist IH]; intros c H; simpl.
   - split; auto.
   - pose proof (do_request_ok clean cf c rq script H) as D.
-    destruct (do_request clean cf c rq script) as [[evs c'] r]. destruct D as [Hc Ht].
-    specialize (IH c' Hc). destruct (run_history clean cf c' hist) as [rest c'']. simpl in *.
+    destruct (do_request clean parse cf c rq script) as [[evs c'] r]. destruct D as [Hc Ht].
+    specialize (IH c' Hc). destruct (run_history clean parse cf c' hist) as [rest c'']. simpl in *.
     destruct IH as [IH1 IH2]. split; auto. constructor; auto. simpl. now apply trace_ok_of_from.
 Qed.
 
@@ -345,7 +348,7 @@ Definition outcome_ok (cf : config) (rq : request) (evs : list event) (r : resul
   | RResp false => exists h a fresh, last evs no_event = (SReg h a fresh, AOk)
   | RResp true =>
     exists h a fresh hdr, last evs no_event = (SReg h a fresh, A401 hdr) /\
-      (fresh = true \/ exists ps, parse_challenge hdr = Ch SchUnknown ps)
+      (fresh = true \/ exists ps, parse hdr = (SchUnknown, ps))
   | RErr ENoCred => cred_empty (cf_creds cf (rq_host rq)) = true
   | RErr EMissing =>
     c_user (cf_creds cf (rq_host rq)) && c_pass (cf_creds cf (rq_host rq)) = false
@@ -371,14 +374,14 @@ Ltac bcrush :=
   end; cbn beta iota); bleaf.
 
 Lemma do_request_budget clean cf c rq script :
-  let '(evs, c', r) := do_request clean cf c rq script in
+  let '(evs, c', r) := do_request clean parse cf c rq script in
   (reg_sends evs <= 3)%nat /\ (fetches evs <= 1)%nat /\ outcome_ok cf rq evs r.
 Proof.
   unfold do_request.
   destruct (match cache_get_scheme (cf_flavour cf) c (rq_host rq) with
             | Some SchBasic => _ | Some SchBearer => _ | _ => _ end) as [attempted a1].
   destruct script as [|[| hdr | id | | ] script1]; try (bleaf; fail).
-  destruct (parse_challenge hdr) as [|[| |] ps] eqn:Ech; try (bleaf; fail).
+  destruct (parse hdr) as [[| |] ps] eqn:Ech; try (bleaf; fail).
   - unfold fetch_basic, final_send. bcrush.
   - set (scopes := if is_empty (get_param s_scope ps) then _ else _).
     set (key := join [c_space] scopes).
@@ -398,19 +401,19 @@ Qed.
    ENoCred/EMissing), the token endpoint and the registry accept it, the schemes
    are known and the body can be re-sent. *)
 Lemma valid_credentials_succeed clean cf c rq script :
-  let '(evs, c', r) := do_request clean cf c rq script in
+  let '(evs, c', r) := do_request clean parse cf c rq script in
   r <> RBad ->
   rq_body rq <> BOnce ->
   r <> RErr ENoCred -> r <> RErr EMissing ->
   (forall s, ~ In (s, AFail) evs) ->
   (forall s, ~ In (s, AErr) evs) ->
   (forall h a hdr, ~ In (SReg h a true, A401 hdr) evs) ->
-  (forall s hdr ps, In (s, A401 hdr) evs -> parse_challenge hdr <> Ch SchUnknown ps) ->
+  (forall s hdr ps, In (s, A401 hdr) evs -> parse hdr <> (SchUnknown, ps)) ->
   r = RResp false /\ (reg_sends evs <= 3)%nat /\ (fetches evs <= 1)%nat /\
   exists h a fresh, last evs no_event = (SReg h a fresh, AOk).
 Proof.
   pose proof (do_request_budget clean cf c rq script) as B.
-  destruct (do_request clean cf c rq script) as [[evs c'] r].
+  destruct (do_request clean parse cf c rq script) as [[evs c'] r].
   destruct B as (B1 & B2 & O).
   intros Hbad Hbody Hnc Hmiss Hfail Herr Hfresh Hknown.
   destruct r as [[|]|[| | | |]|]; simpl in O; try congruence.
@@ -425,13 +428,13 @@ Qed.
 
 (* which credentials are complete for which flow (the causes of ENoCred/EMissing) *)
 Lemma missing_credentials_cause clean cf c rq script :
-  let '(evs, c', r) := do_request clean cf c rq script in
+  let '(evs, c', r) := do_request clean parse cf c rq script in
   (r = RErr ENoCred -> cred_empty (cf_creds cf (rq_host rq)) = true) /\
   (r = RErr EMissing ->
    c_user (cf_creds cf (rq_host rq)) && c_pass (cf_creds cf (rq_host rq)) = false).
 Proof.
   pose proof (do_request_budget clean cf c rq script) as B.
-  destruct (do_request clean cf c rq script) as [[evs c'] r].
+  destruct (do_request clean parse cf c rq script) as [[evs c'] r].
   destruct B as (_ & _ & O). split; intros ->; exact O.
 Qed.
 
@@ -456,7 +459,7 @@ Ltac fcrush :=
 (* nothing is sent after a send that got no response, and a token fetch that
    failed or was cancelled leaves the cache as it was *)
 Lemma do_request_failures clean cf c rq script :
-  let '(evs, c', r) := do_request clean cf c rq script in
+  let '(evs, c', r) := do_request clean parse cf c rq script in
   stops_after_failure evs /\
   ((exists s, last evs no_event = (s, AErr) /\ is_reg (s, AErr) = false) -> c' = c) /\
   ((exists s, last evs no_event = (s, AFail) /\ is_reg (s, AFail) = false) -> c' = c).
@@ -465,7 +468,7 @@ Proof.
   destruct (match cache_get_scheme (cf_flavour cf) c (rq_host rq) with
             | Some SchBasic => _ | Some SchBearer => _ | _ => _ end) as [attempted a1].
   destruct script as [|[| hdr | id | | ] script1]; try (fleaf; fail).
-  destruct (parse_challenge hdr) as [|[| |] ps] eqn:Ech; try (fleaf; fail).
+  destruct (parse hdr) as [[| |] ps] eqn:Ech; try (fleaf; fail).
   - unfold fetch_basic, final_send. fcrush.
   - set (scopes := if is_empty (get_param s_scope ps) then _ else _).
     set (key := join [c_space] scopes).
@@ -473,3 +476,89 @@ Proof.
     destruct (if str_eqb key attempted then None else cache_get_token _ c _ SchBearer key) as [tok2|];
       fcrush.
 Qed.
+
+(* ---------- which cache entry a re-used token comes from ---------- *)
+(* the keys Client.Do looks up: the canonical join of the hinted scopes, or of
+   CleanScopes(hinted ++ scopes of the challenge) *)
+Definition do_key (clean : list str -> list str) (rq : request) (k : str) : Prop :=
+  let hinted := get_all_scopes clean (rq_hints_host rq) (rq_hints_global rq) in
+  k = join [c_space] hinted \/ exists extra, k = join [c_space] (clean (hinted ++ extra)).
+
+Definition cached_send_ok (clean : list str -> list str) (f : flavour) (c : cc) (rq : request) (ev : event) : Prop :=
+  match fst ev with
+  | SReg h (ABearer t) false =>
+    h = rq_host rq /\ exists k, do_key clean rq k /\ cache_get_token f c h SchBearer k = Some t
+  | SReg h (ABasic t) false => h = rq_host rq /\ cache_get_token f c h SchBasic [] = Some t
+  | _ => True
+  end.
+
+Lemma first_attempt_cached f c h (hinted : list str) :
+  match snd (match cache_get_scheme f c h with
+    | Some SchBasic =>
+      (@nil N, match cache_get_token f c h SchBasic [] with Some t => ABasic t | None => NoAuth end)
+    | Some SchBearer =>
+      (join [c_space] hinted,
+       match cache_get_token f c h SchBearer (join [c_space] hinted) with Some t => ABearer t | None => NoAuth end)
+    | _ => ([], NoAuth)
+    end) with
+  | ABasic t => cache_get_token f c h SchBasic [] = Some t
+  | ABearer t => cache_get_token f c h SchBearer (join [c_space] hinted) = Some t
+  | NoAuth => True
+  end.
+Proof.
+  destruct (cache_get_scheme f c h) as [[| |]|]; simpl; auto.
+  - destruct (cache_get_token f c h SchBasic []) eqn:E; simpl; auto.
+  - destruct (cache_get_token f c h SchBearer _) eqn:E; simpl; auto.
+Qed.
+
+Ltac ksolve :=
+  repeat match goal with
+  | |- _ /\ _ => split
+  | |- exists k, do_key _ _ k /\ _ =>
+    eexists; split; [| first [eassumption | congruence]];
+    [unfold do_key; first [left; reflexivity | right; eexists; reflexivity]]
+  | |- do_key _ _ _ => unfold do_key; first [left; reflexivity | right; eexists; reflexivity]
+  | |- _ = _ => first [reflexivity | eassumption | congruence]
+  | |- True => exact I
+  end.
+
+Ltac kleaf :=
+  simpl; repeat (apply Forall_cons || apply Forall_nil); unfold cached_send_ok; simpl; auto;
+  try (match goal with
+       | H : match ?a with NoAuth => True | ABasic _ => _ | ABearer _ => _ end |- _ =>
+         destruct a; simpl in *; auto;
+         repeat match goal with Hs : Some _ = Some _ |- _ => injection Hs as Hs; try subst end;
+         ksolve
+       end);
+  try ksolve.
+
+Ltac kcrush :=
+  repeat (match goal with
+  | |- context [match ?s with [] => _ | _ :: _ => _ end] => is_var s; destruct s as [|[| ? | ? | | ] ?]
+  | |- context [if ?b then _ else _] => destruct b eqn:?
+  end; cbn beta iota); kleaf.
+
+(* every token that Client.Do re-uses (a send that is not fresh) was found in the
+   cache as it was when the call started, under the request's host, the scheme,
+   and one of the request's own keys *)
+Lemma do_request_cached_sends clean cf c rq script :
+  let '(evs, c', r) := do_request clean parse cf c rq script in
+  Forall (cached_send_ok clean (cf_flavour cf) c rq) evs.
+Proof.
+  unfold do_request.
+  pose proof (first_attempt_cached (cf_flavour cf) c (rq_host rq)
+                (get_all_scopes clean (rq_hints_host rq) (rq_hints_global rq))) as H1.
+  destruct (match cache_get_scheme (cf_flavour cf) c (rq_host rq) with
+            | Some SchBasic => _ | Some SchBearer => _ | _ => _ end) as [attempted a1].
+  simpl in H1.
+  destruct script as [|[| hdr | id | | ] script1]; try (kleaf; fail).
+  destruct (parse hdr) as [[| |] ps] eqn:Ech; try (kleaf; fail).
+  - unfold fetch_basic, final_send. kcrush.
+  - cbv zeta. unfold fetch_bearer_plan, final_send.
+    destruct (is_empty (get_param s_scope ps)) eqn:Ee; cbn beta iota;
+      (destruct (str_eqb _ attempted) eqn:Ek; [kcrush|];
+       match goal with |- context [cache_get_token ?f ?c0 ?h0 SchBearer ?k] =>
+         destruct (cache_get_token f c0 h0 SchBearer k) as [tok2|] eqn:E2 end; kcrush).
+Qed.
+
+End WithParse.
